@@ -61,6 +61,29 @@ claim("C03",
       "R03.5/R03.6/R03.8 instances are frozen-shape rules on 1-3 line accessors (any edit of those lines is reported).",
       "graph/table agreement + ast pattern rules + data-dependence over reaching definitions", "§3 C03")
 
+claim("C02",
+      "Clause-level (structural part only): the orientation graph is a tree with exactly one rotation provider per "
+      "link and frames pairing equal names; a rate vector is returned exactly by the two sidereal providers, from the "
+      "same model and with the same sign; composition discipline (inverse of the EXPANDED 6x6 on reverse steps, left "
+      "accumulation, negated reverse centre offsets, m @ state + offset in the new orientation); rot1/2/3 are proper "
+      "rotations of one sense and expand() builds the -[rate]x R coupling (term algebra); the IAU models read TT/UT1 "
+      "clock fields from normalised dates only; EOP fields, series<->model pairing, IERS column layout and unit "
+      "constants; rotation sequences, model wiring and rotation-ness of the constant matrices.",
+      "Not decided: IAU series values, sub-arcsecond agreement of the 1980 and 2010 chains, numeric path independence, "
+      "sign conventions beyond the frozen sequences. R02.7 sequences are frozen from Vallado/IERS by reading.",
+      "graph/table agreement + canonical term algebra (rotations) + site census with reaching definitions", "§3 C02")
+
+claim("C20",
+      "Narrow, structural clauses only: the three built-in graphs are trees; every registration site (stations, "
+      "orbit-attached and Lagrange orientations, centres, JPL frames) creates its node in the call and attaches it to "
+      "exactly one pre-existing node with a registry key that starts with the new name (one tabled bridge exception); "
+      "registries and Node.routes/neighbors are written only at the listed sites; __add__ links both ways before "
+      "_update, path() follows routes[goal].direction; the routing update has the shape frozen by reading.",
+      "Not decided: correctness of Node._update over all insertion orders and the shortest-path clause on cyclic "
+      "graphs (not visible in the shape of the code; exhaustive enumeration belongs to another family). Given leaf "
+      "attachment the graphs stay trees, where routes are unique.",
+      "ast pattern rules over registration sites + who-may-write census", "§3 C20")
+
 NOT_YET = "check not built yet in this revision; rules designed in DESIGN.md §3 — claimed once its checker is committed"
 
 ALL = [f"C{i:02d}" for i in range(1, 21)]
